@@ -51,7 +51,8 @@ def spellings(ctx):
         out.append((s, "Boolean", s, "ok bool " + str(s.lower() == "true")))
     for s in ["null", "NULL", "Null"]:
         out.append((s, "Null", None, "ok None"))
-    strs = ["", "a", "it's", "'", "''", "a'b'c", "100%", "a_c", "a\\b", " sp ", "é", "日本", "\t", "--", "/*", ";", "\x00", "’", "x" * 300, "select * from t", "' or 1 eq 1 or '"]
+    strs = ["Cafe\u0301", "Caf\u00e9", "\u212b", "\u00c5", "\u2126", "\u03a9", "\u1112\u1161\u11ab", "\ud55c", "a\u0323\u0307", "a\u0307\u0323", "\uf900", "\ufb01", "\u00b5", "\u017f",
+            "", "a", "it's", "'", "''", "a'b'c", "100%", "a_c", "a\\b", " sp ", "é", "日本", "\t", "--", "/*", ";", "\x00", "’", "x" * 300, "select * from t", "' or 1 eq 1 or '"]
     strs += ["".join(rng.choice("ab'%_\\ é’\n") for _ in range(rng.randrange(0, 12))) for _ in range(400 if ctx.thorough else 60)]
     for c in strs:
         out.append(("'" + c.replace("'", "''") + "'", "String", c, "ok str " + hexs(c)))
